@@ -49,6 +49,7 @@ static inline _Bool              v_nd_bool(void)   { _Bool v = nondet_bool(); re
 #  define V_R_OK(p,n)    __CPROVER_r_ok((p),(n))
 #  define V_W_OK(p,n)    __CPROVER_w_ok((p),(n))
 #  define V_HAVOC(p,n)   v_havoc_bytes((p),(n))
+#  define V_SAME_OBJ(a,b) __CPROVER_same_object((a),(b))
 #else
 #  include <stdio.h>
 #  include <stdlib.h>
@@ -62,6 +63,7 @@ static inline _Bool              v_nd_bool(void)   { _Bool v = nondet_bool(); re
 #  define V_R_OK(p,n)    1
 #  define V_W_OK(p,n)    1
 #  define V_HAVOC(p,n)   ((void)0)
+#  define V_SAME_OBJ(a,b) 1
 #endif
 
 void v_havoc_bytes(void* p, size_t n);
